@@ -246,6 +246,16 @@ def twin_task(task):
             f'{len(subsets)} automation subsets' + (' (all 2^11)' if len(subsets) == 2048 else ' (sampled)'), 'evaluations': runs, 'failures': fails[:6]}}
 
 
+def shared_c10_task(task):
+    """a step is available to the user exactly when the automation would perform it: burning is due only after everybody has stood pat or
+    discarded (C10's burn_card contract, run here too)"""
+    import props.c10 as p10
+    from pyvc.runner import relabel
+    res = p10.vc_task(task)
+    res['results'] = [r for r in res.get('results', []) if r['kind'] != 'safety']
+    return relabel(res, 'C09')
+
+
 def main(argv=None):
     chk = Check('C09', 'other', argv)
     source(EXTRA)
@@ -258,6 +268,10 @@ def main(argv=None):
             tasks.append({'module': 'props.c09', 'fn': 'vc_task', 'name': f'{name}/n{sh.n}b{sh.B}', 'contract': name, 'shape': sh.as_dict(),
                           'timeout_ms': 60000 if chk.tier == 'thorough' else 20000, 'weight': sh.n})
     if not only:
+        import props.c10 as p10
+        for sh in p10.shapes(chk.tier)[:1]:
+            tasks.append({'module': 'props.c09', 'fn': 'shared_c10_task', 'name': f'burn_card/n{sh.n}', 'contract': 'burn_card', 'shape': sh.as_dict(),
+                          'timeout_ms': 40000, 'weight': 3})
         tasks.append({'module': 'props.c09', 'fn': 'scan_task', 'name': 'scans'})
         tasks.append({'module': 'props.c09', 'fn': 'twin_task', 'name': 'twin-standin', 'games': 3 if chk.tier == 'quick' else 12,
                       'subsets': 128 if chk.tier == 'quick' else 2048, 'seed': chk.seed, 'weight': 80})
